@@ -107,7 +107,8 @@ structure FinRel (s5 s8 : State) (m : Nat) (v : Int) (saved : Option Nat) : Prop
 
 theorem finish_inv {p : Prog} {s5 s8 : State} {m : Nat} {v : Int} {saved : Option Nat}
     (h5 : InvR p s5) (loc : RunLoc s5 m) (fr : FinRel s5 s8 m v saved)
-    (hrep : ∀ ρ : Nat → Int, (∀ e ∈ (s5.get m).seen, ρ e.1 = e.2.1) → evalPure ρ (bodyOf p m) = v)
+    (hrep : ∃ U : List Int, ∀ ρ : Nat → Int, (∀ e ∈ (s5.get m).seen, ρ e.1 = e.2.1) →
+      (evalSnap ρ (bodyOf p m) U).1 = v)
     (hsaved : ∀ o, saved = some o → (s5.get o).running = true ∧ o ≠ m)
     (hH : ∀ i, i ≠ m → (s5.get i).kind = .memo → (s5.get i).running = false → (s8.get i).st ≠ .dirty →
       ∀ e ∈ (s5.get i).seen, e.1 = m → v = e.2.1) : InvR p s8 := by
@@ -206,12 +207,13 @@ theorem finish_inv {p : Prog} {s5 s8 : State} {m : Nat} {v : Int} {saved : Optio
     · subst him; rw [fr.val_m] at hv; cases hv
     · rw [kE] at hk; rw [runE i him] at hr; rw [valE i him] at hv
       exact dE i him (h5.valNone i hk hr hv)
-  · intro i hk hr hst ρ hρ
-    rw [seenE] at hρ
+  · intro i hk hr hst
     by_cases him : i = m
-    · subst him; rw [fr.val_m, hrep ρ hρ]
-    · rw [kE] at hk; rw [runE i him] at hr; rw [valE i him]
-      exact h5.replay i hk hr (by rw [← ndE i him hst]; exact hst) ρ hρ
+    · subst him
+      obtain ⟨U, hU⟩ := hrep
+      exact ⟨U, fun ρ hρ => by rw [seenE] at hρ; rw [fr.val_m, hU ρ hρ]⟩
+    · rw [kE] at hk; rw [runE i him] at hr
+      exact (h5.replay i hk hr (by rw [← ndE i him hst]; exact hst)).congr (seenE i) (valE i him)
   · intro i hk hr hst e he
     rw [seenE] at he
     by_cases him : i = m
@@ -313,7 +315,9 @@ theorem finishRun_rel {p : Prog} {s5 : State} {m : Nat} (f : Nat) (old : Option 
     ((finishRun f s5 m old saved v).2 = (old != some v)) ∧
     ((old != some v) = true → (s5.get m).ver < ((finishRun f s5 m old saved v).1.get m).ver) ∧
     ((old != some v) = true → ∀ w ∈ (s5.get m).subs, saved ≠ some w → (s5.get w).kind = .memo →
-      ((finishRun f s5 m old saved v).1.get w).st = .dirty) := by
+      ((finishRun f s5 m old saved v).1.get w).st = .dirty) ∧
+    ((old != some v) = true → ∀ w ∈ (s5.get m).subs, saved ≠ some w → (s5.get w).kind = .eff →
+      (s5.get w).alive = true → ((finishRun f s5 m old saved v).1.get w).dirty = true) := by
   have hm : m < s5.nodes.length := s5.lt_of_running loc.running
   unfold finishRun
   generalize hs7 : storeVal s5 m old saved v = s7
@@ -375,7 +379,7 @@ theorem finishRun_rel {p : Prog} {s5 : State} {m : Nat} (f : Nat) (old : Option 
         · subst hi; rw [g7m]; exact ⟨rfl, rfl, rfl⟩
         · rw [g7o i hi]; exact ⟨rfl, rfl, rfl⟩
       exact h57.trans sp.flags
-    refine ⟨⟨?_, ?_, ?_, ?_, ?_, st8m, ?_, ?_, ?_, ?_, ?_, ?_, ?_, ?_, hfl8⟩, hch.symm, fun _ => by rw [verm]; omega, ?_⟩
+    refine ⟨⟨?_, ?_, ?_, ?_, ?_, st8m, ?_, ?_, ?_, ?_, ?_, ?_, ?_, ?_, hfl8⟩, hch.symm, fun _ => by rw [verm]; omega, ?_, ?_⟩
     · rw [sp.rel.len]; subst hs7e; exact len7
     · rw [sp.rel.obs]; exact obs7e
     · intro hl
@@ -405,10 +409,14 @@ theorem finishRun_rel {p : Prog} {s5 : State} {m : Nat} (f : Nat) (old : Option 
       have hwm : w ≠ m := by intro e; subst e; exact hmm hw
       exact sp.marked w (by rw [hsubs7]; exact hw) (by rw [obs7e]; exact hsv)
         (by rw [ge, g7o w hwm]; exact hk)
+    · intro _ w hw hsv hk ha
+      have hwm : w ≠ m := by intro e; subst e; exact hmm hw
+      exact sp.markedE w (by rw [hsubs7]; exact hw) (by rw [obs7e]; exact hsv)
+        (by rw [ge, g7o w hwm]; exact hk) (by rw [ge, g7o w hwm]; exact ha)
   · rw [if_neg hch]
     have hch' : (old != some v) = false := by simpa using hch
     refine ⟨⟨len7, obs7, fun hl i => by rw [log7]; exact hl i, by rw [g7m], by rw [g7m], by rw [g7m],
-      by rw [g7m], by rw [g7m], by rw [g7m], by rw [g7m], ver7, ?_, ?_, ?_, ?_⟩, hch'.symm, ?_, ?_⟩
+      by rw [g7m], by rw [g7m], by rw [g7m], by rw [g7m], ver7, ?_, ?_, ?_, ?_⟩, hch'.symm, ?_, ?_, ?_⟩
     · intro i hi; rw [g7o i hi]; exact ⟨rfl, .inl rfl⟩
     · intro i hi hne; rw [g7o i hi] at hne; exact absurd rfl hne
     · intro i hi hd; rw [g7o i hi] at hd; exact .inl hd
@@ -417,6 +425,7 @@ theorem finishRun_rel {p : Prog} {s5 : State} {m : Nat} (f : Nat) (old : Option 
       by_cases hi : i = m
       · subst hi; rw [g7m]; exact ⟨rfl, rfl, rfl⟩
       · rw [g7o i hi]; exact ⟨rfl, rfl, rfl⟩
+    · intro h; exact absurd h hch
     · intro h; exact absurd h hch
     · intro h; exact absurd h hch
 
@@ -467,10 +476,14 @@ theorem runMemo_eq (p : Prog) (f : Nat) (s : State) (id : Nat) :
   unfold runMemo finishRun storeVal notifySubs startRun
   simp only [hobs]
 
-/-- what the proof needs from the program: memo bodies read smaller data nodes, tracked, and do not write -/
+/-- what the proof needs from the program: memo bodies read smaller data nodes and do not write -/
 def MemoOK (p : Prog) : Prop :=
   ∀ (m : Nat) (b : Expr), p[m]? = some (NodeDef.memo b) →
-    b.readsBelow m = true ∧ b.noWrite = true ∧ b.noUntracked = true ∧ b.readsData p = true
+    b.readsBelow m = true ∧ b.noWrite = true ∧ b.readsData p = true
+
+/-- memo bodies use tracked reads only -/
+def MemoTracked (p : Prog) : Prop :=
+  ∀ (m : Nat) (b : Expr), p[m]? = some (NodeDef.memo b) → b.noUntracked = true
 
 theorem runMemo_spec {p : Prog} (hp : MemoOK p) {f : Nat} (hu : UpdOK p (upd p f) f) {s0 : State} {m : Nat}
     (h0 : InvR p s0) (hmf : m ≤ f) (hk : (s0.get m).kind = .memo) (hr : (s0.get m).running = false)
@@ -488,9 +501,8 @@ theorem runMemo_spec {p : Prog} (hp : MemoOK p) {f : Nat} (hu : UpdOK p (upd p f
   have hbo : bodyOf p m = b := by simp only [bodyOf, hb]
   rw [runMemo_eq]
   generalize startRun s0 m = s4 at t h4 loc4 fr04
-  obtain ⟨L, ep, hrep⟩ := evalE_spec hu (fun s _ _ => s) hmf (bodyOf p m) s4 h4 loc4
-    (by rw [hbo]; exact hbody.1) (by rw [hbo]; exact hbody.2.1) (by rw [hbo]; exact hbody.2.2.1)
-    (by rw [hbo]; exact hbody.2.2.2)
+  obtain ⟨L, U, ep, hrep⟩ := evalE_spec hu (fun s _ _ => s) hmf (bodyOf p m) s4 h4 loc4
+    (by rw [hbo]; exact hbody.1) (by rw [hbo]; exact hbody.2.1) (by rw [hbo]; exact hbody.2.2)
   generalize evalE (readNode (upd p f)) (fun s _ _ => s) m (bodyOf p m) s4 = r at ep hrep
   obtain ⟨s5, v⟩ := r
   simp only at ep hrep ⊢
@@ -508,10 +520,10 @@ theorem runMemo_spec {p : Prog} (hp : MemoOK p) {f : Nat} (hu : UpdOK p (upd p f
     rcases (fr05.above w (by have := sub_gt w hw; omega)).2 with h | h
     · rw [h]; exact h0w
     · rw [h]; simp
-  obtain ⟨fr, hflag, hverup, hmarked⟩ := finishRun_rel f (s0.get m).val s0.obs v ep.inv ep.loc hsubsNC
-  generalize finishRun f s5 m (s0.get m).val s0.obs v = r8 at fr hflag hverup hmarked
+  obtain ⟨fr, hflag, hverup, hmarked, hmarkedE⟩ := finishRun_rel f (s0.get m).val s0.obs v ep.inv ep.loc hsubsNC
+  generalize finishRun f s5 m (s0.get m).val s0.obs v = r8 at fr hflag hverup hmarked hmarkedE
   obtain ⟨s8, ch⟩ := r8
-  simp only at fr hflag hverup hmarked
+  simp only at fr hflag hverup hmarked hmarkedE
   have hsaved : ∀ o, s0.obs = some o → (s5.get o).running = true ∧ o ≠ m := by
     intro o ho
     have hro := h0.obsRun o ho
@@ -548,12 +560,17 @@ theorem runMemo_spec {p : Prog} (hp : MemoOK p) {f : Nat} (hu : UpdOK p (upd p f
       rcases h0.srcVal i hk0 hr0 hst0 e he0 with h | h
       · rw [hem, hr] at h; cases h
       · rw [hem, hold] at h; exact Option.some.inj h
-  have hrep' : ∀ ρ : Nat → Int, (∀ e ∈ (s5.get m).seen, ρ e.1 = e.2.1) → evalPure ρ (bodyOf p m) = v := by
-    intro ρ hρ; rw [hseen5] at hρ; exact hrep ρ hρ
+  have hrep' : ∃ U : List Int, ∀ ρ : Nat → Int, (∀ e ∈ (s5.get m).seen, ρ e.1 = e.2.1) →
+      (evalSnap ρ (bodyOf p m) U).1 = v := by
+    refine ⟨U, fun ρ hρ => ?_⟩
+    rw [hseen5] at hρ
+    have := hrep ρ hρ []
+    rw [List.append_nil] at this
+    rw [this]
   have h8 := finish_inv ep.inv ep.loc fr hrep' hsaved hH
   have fr58 := finish_frame ep.inv ep.loc fr
   have hver5 : (s5.get m).ver = (s0.get m).ver := ep.ver.trans (t.ver m)
-  refine ⟨h8, fr05.trans fr58, fr.obs, ?_, fun _ => fr.st_m, fr.subs_m.trans hsubs5, ?_, ?_⟩
+  refine ⟨h8, fr05.trans fr58, fr.obs, ?_, fun _ => fr.st_m, fr.subs_m.trans hsubs5, ?_, ?_, ?_⟩
   · intro i
     by_cases hi : i = m
     · subst hi; rw [hr]; exact fr.running_m
@@ -573,6 +590,35 @@ theorem runMemo_spec {p : Prog} (hp : MemoOK p) {f : Nat} (hu : UpdOK p (upd p f
     · exact .inl h
     · refine .inr ⟨y, hy, ?_, Nat.lt_of_lt_of_le hv (fr58.verMono y)⟩
       intro hym; subst hym; omega
+  · -- value changes are signalled to effects
+    intro i hki x hx hne
+    simp only at hne ⊢
+    have him : i ≠ m := by intro e; subst e; rw [hk] at hki; cases hki
+    have hc05 := fr05.effCore i hki
+    by_cases hxm : x = m
+    · subst hxm
+      by_cases hch : ((s0.get x).val != some v) = true
+      · by_cases hsv : s0.obs = some i
+        · exact .inr (.inl hsv)
+        · by_cases hal : (s0.get i).alive = true
+          · left
+            have hsub : i ∈ (s5.get x).subs := by rw [hsubs5]; exact (h0.edge x i).2 hx
+            exact hmarkedE hch i hsub hsv (by rw [fr05.kind]; exact hki)
+              (by rw [(Node.core_life hc05).1]; exact hal)
+          · exact .inr (.inr (by simpa using hal))
+      · exfalso
+        have hold : (s0.get x).val = some v := by simpa using hch
+        exact hne (by rw [fr.val_m, hold])
+    · have h85 : (s8.get x).val = (s5.get x).val := (Node.core_fields (fr.go x hxm).1).2.1
+      have h40 : (s4.get x).val = (s0.get x).val := t.val x hxm
+      have hne' : (s5.get x).val ≠ (s4.get x).val := by rw [← h85, h40]; exact hne
+      have hk4 : (s4.get i).kind = .eff := by rw [t.kind]; exact hki
+      rcases ep.valCh i hk4 x (by rw [t.sources i him]; exact hx) hne' with h' | h' | h'
+      · exact .inl (fr.flags.d i h')
+      · rw [loc4.obs] at h'
+        have : m = i := Option.some.inj h'
+        exact absurd this.symm him
+      · rw [t.go i him] at h'; exact .inr (.inr h')
 
 /-! ## the `any` loop of `needs_update` -/
 
@@ -584,6 +630,7 @@ structure AnyPost (p : Prog) (s : State) (m : Nat) (l : List Nat) (r : State × 
   allClean : r.2 = false → (∀ x ∈ l, (s.get x).kind = .memo → (r.1.get x).st = .clean) ∧
     (r.1.get m).st ≠ .dirty
   just : r.2 = true → (r.1.get m).runs ≠ 0 → ∃ e ∈ (r.1.get m).seen, (r.1.get e.1).ver ≠ e.2.2
+  valCh : ValCh s r.1
 
 theorem anySrc_spec {p : Prog} {u : State → Nat → State × Bool} {f : Nat} (hu : UpdOK p u f)
     {m : Nat} (hmf : m ≤ f) : ∀ (l : List Nat) (s : State), InvR p s → (s.get m).kind = .memo →
@@ -595,7 +642,7 @@ theorem anySrc_spec {p : Prog} {u : State → Nat → State × Bool} {f : Nat} (
   | nil =>
     intro s h _ _ _ hnd _
     exact ⟨h, Frame.refl s m, rfl, fun _ => rfl, fun _ => ⟨fun _ hx => (by cases hx), hnd⟩,
-      fun hc => by cases hc⟩
+      fun hc => (by cases hc), ValCh.of_val_eq (fun _ => rfl)⟩
   | cons x l ih =>
     intro s h hk hr hlow hnd hl
     have hxs : x ∈ (s.get m).sources := hl x List.mem_cons_self
@@ -618,7 +665,7 @@ theorem anySrc_spec {p : Prog} {u : State → Nat → State × Bool} {f : Nat} (
     have hsrc1 : (s1.get m).sources = (s.get m).sources := cf.2.2.1
     by_cases hc : (ch || (true && (s1.get m).st == .dirty)) = true
     · rw [if_pos hc]
-      refine ⟨hp.inv, fr1, hp.obs, hp.running, fun h' => (by cases h'), fun _ hruns => ?_⟩
+      refine ⟨hp.inv, fr1, hp.obs, hp.running, fun h' => (by cases h'), fun _ hruns => ?_, hp.valCh⟩
       simp only at hruns ⊢
       by_cases hch : ch = true
       · have hv : (s.get x).ver < (s1.get x).ver := hp.ver hch
@@ -646,7 +693,8 @@ theorem anySrc_spec {p : Prog} {u : State → Nat → State × Bool} {f : Nat} (
         (fun y hy => by rw [hsrc1]; exact hl y (List.mem_cons_of_mem _ hy))
       generalize anySrc u true m l s1 = r2 at ih'
       refine ⟨ih'.inv, fr1.trans ih'.frame, ih'.obs.trans hp.obs,
-        fun i => (ih'.running i).trans (hp.running i), fun h2 => ?_, ih'.just⟩
+        fun i => (ih'.running i).trans (hp.running i), fun h2 => ?_, ih'.just,
+        hp.valCh.trans ih'.valCh fr1 ih'.frame hp.obs⟩
       have a2 := ih'.allClean h2
       refine ⟨fun y hy hky => ?_, a2.2⟩
       rcases List.mem_cons.1 hy with rfl | hy
@@ -708,12 +756,11 @@ theorem restamp_spec {p : Prog} {s : State} {m : Nat} (h : InvR p s) (hk : (s.ge
       have hd := h.valNone i hki hri hv
       have him : i ≠ m := by intro e; subst e; exact hnd hd
       rw [sto i him]; exact hd
-    · intro i hki hri hsi ρ hρ
-      rw [(cf i).1] at hki; rw [(cf i).2.2.2.2.2.1] at hri; rw [(cf i).2.2.2.2.2.2.1] at hρ
-      rw [(cf i).2.1]
+    · intro i hki hri hsi
+      rw [(cf i).1] at hki; rw [(cf i).2.2.2.2.2.1] at hri
       by_cases him : i = m
-      · subst him; exact h.replay i hki hri hnd ρ hρ
-      · rw [sto i him] at hsi; exact h.replay i hki hri hsi ρ hρ
+      · subst him; exact (h.replay i hki hri hnd).congr (cf i).2.2.2.2.2.2.1 (cf i).2.1
+      · rw [sto i him] at hsi; exact (h.replay i hki hri hsi).congr (cf i).2.2.2.2.2.2.1 (cf i).2.1
     · intro i hki hri hsi e he
       rw [(cf i).1] at hki; rw [(cf i).2.2.2.2.2.1] at hri; rw [(cf i).2.2.2.2.2.2.1] at he
       rw [(cf e.1).2.2.2.2.2.1, (cf e.1).2.1]
@@ -734,7 +781,7 @@ theorem restamp_spec {p : Prog} {s : State} {m : Nat} (h : InvR p s) (hk : (s.ge
     · subst hi; rw [gm]
     · rw [go i hi]
   refine ⟨hinv, ?_, hobs, fun i => (cf i).2.2.2.2.2.1, fun _ => stm, (cf m).2.2.2.1, fun hc => (by cases hc),
-    fun o _ _ hd => .inl (by rw [← dE]; exact hd)⟩
+    fun o _ _ hd => .inl (by rw [← dE]; exact hd), ValCh.of_val_eq (fun i => (cf i).2.1)⟩
   refine ⟨hlen, fun i => (cf i).1, ?_, fun i => by rw [(cf i).2.2.2.2.2.2.2.1]; exact Nat.le_refl _,
     fun i _ => (cf i).2.2.2.2.2.2.2.1, ?_, fun hl i => (by rw [hlog]; exact hl i), fun i _ => hcore i,
     fun i _ hd => .inl (by rw [← dE]; exact hd), ?_⟩
@@ -750,10 +797,6 @@ theorem restamp_spec {p : Prog} {s : State} {m : Nat} (h : InvR p s) (hk : (s.ge
     by_cases hi : i = m
     · subst hi; rw [gm]; exact ⟨rfl, rfl, rfl⟩
     · rw [go i hi]; exact ⟨rfl, rfl, rfl⟩
-
-theorem UpdPost.refl {p : Prog} {s : State} {m : Nat} (h : InvR p s)
-    (hc : (s.get m).kind = .memo → (s.get m).st = .clean) : UpdPost p s m (s, false) :=
-  ⟨h, Frame.refl s _, rfl, fun _ => rfl, hc, rfl, fun hc => (by cases hc), fun _ _ _ hd => .inl hd⟩
 
 theorem upd_step {p : Prog} (hp : MemoOK p) {f : Nat} (hu : UpdOK p (upd p f) f) :
     UpdOK p (upd p (f + 1)) (f + 1) := by
@@ -820,7 +863,7 @@ theorem upd_step {p : Prog} (hp : MemoOK p) {f : Nat} (hu : UpdOK p (upd p f) f)
         exact ⟨post.inv, fr1.trans post.frame, post.obs.trans ap.obs,
           fun i => (post.running i).trans (ap.running i), fun _ => post.clean hk1,
           post.subs.trans cf.2.2.2.1, fun hc => (by rw [← cf.2.2.2.2.2.2.2.1]; exact post.ver hc),
-          hobsD r2.1 post.frame post.obsD⟩
+          hobsD r2.1 post.frame post.obsD, ap.valCh.trans post.valCh fr1 post.frame ap.obs⟩
       · rw [if_neg hn]
         have hn' : need = false := by simpa using hn
         have ac := ap.allClean hn'
@@ -830,7 +873,8 @@ theorem upd_step {p : Prog} (hp : MemoOK p) {f : Nat} (hu : UpdOK p (upd p f) f)
         generalize (s1.upd m fun n => { n with st := .clean }) = s2 at post
         exact ⟨post.inv, fr1.trans post.frame, post.obs.trans ap.obs,
           fun i => (post.running i).trans (ap.running i), fun _ => post.clean hk1,
-          post.subs.trans cf.2.2.2.1, fun hc => (by cases hc), hobsD s2 post.frame post.obsD⟩
+          post.subs.trans cf.2.2.2.1, fun hc => (by cases hc), hobsD s2 post.frame post.obsD,
+          ap.valCh.trans post.valCh fr1 post.frame ap.obs⟩
   · have hk' : ((s.get m).kind != .memo) = true := by
       cases hkk : (s.get m).kind <;> simp_all
     rw [hk']
